@@ -3,7 +3,7 @@ import torch
 
 from torch_frame.data import DataLoader
 
-from harness import core, frame, ragged
+from harness import core, frame, ragged, stress
 
 
 class Recorder:
@@ -31,7 +31,12 @@ class C10(frame.Findings, core.Check):
     driver = 'drv_c07'
     quick_cases = 3000
     thorough_cases = 24000
-    rule = ('frames of C07 carrying a row-id column (0-7 rows, every storage kind) and small Datasets (1-7 rows, '
+    rule = ('hardening families: special values / float64 features / dict key orders of C07; a second epoch on the same '
+            'loader (25%); scale (36 / 150 / 300 cases at stress level 0 / 1 / 2): frames with 17..259 / 4 099 rows (all-empty '
+            'ragged rows), long cells, many columns, datasets with up to 259 / 1 027 rows, batch sizes from the ladder and '
+            'around the row count, shuffled / explicit permutation samplers / explicit batch lists that are long structured '
+            'index lists; heavy frames (5 / 30 / 40) where ONE batch gathers >= 16 385 / 32 769 values of a ragged feature; '
+            'base: frames of C07 carrying a row-id column (0-7 rows, every storage kind) and small Datasets (1-7 rows, '
             'materialized or not, text-embedded columns through a stub embedder) x batch_size 1..n+1 / None / 0 x shuffle x '
             'drop_last x explicit samplers (arbitrary index lists incl. repeats and out-of-range entries) x explicit '
             'batch_samplers x a raising user collate_fn; the order of a shuffling sampler is recorded and fed to the '
@@ -45,23 +50,64 @@ class C10(frame.Findings, core.Check):
         'the source frame is left unchanged: snapshot before/after on the real objects',
     )
 
+    N_SCALE = {0: 36, 1: 150, 2: 300}
+    N_HEAVY = {0: 5, 1: 30, 2: 40}
+    N_HUGE = {0: 0, 1: 0, 2: 3}      # 16 385 .. 65 539 rows: judged by the direct oracle only
+
     def generate(self, rng, n, tier):
+        lv = self.level
         n_ds = max(20, n // 12)
+        n_heavy, n_scale = min(self.N_HEAVY[lv], n // 4), min(self.N_SCALE[lv], n // 2)
         for i in range(n):
             case = {'seed': rng.randrange(10 ** 6)}
-            if i < n_ds:
+            scaled = None
+            if i < self.N_HUGE[lv]:
+                scaled = 'huge'
+                case['src'] = 'frame'
+                case['frame'] = frame.gen_frame_scaled(rng, lv, 'rows', R=rng.choice(stress.LADDER_BIG) + rng.choice([0, 1, 2]),
+                                                       rowid=True, pool='full')
+                case['oracle_only'] = True
+                rows = case['frame']['R']
+            elif i < n_heavy:
+                # one batch gathers >= 16 385 / 32 769 values of a ragged feature (rows with all-empty cells included)
+                scaled = 'heavy'
+                case['src'] = 'frame'
+                case['frame'] = frame.gen_frame_scaled(rng, lv, 'heavy', rowid=True, pool='full')
+                rows = case['frame']['R']
+            elif i < n_heavy + n_scale:
+                scaled = rng.choice(['rows', 'rows', 'rows', 'rows', 'longcells', 'cols', 'dataset'])
+                if scaled == 'dataset':
+                    case['src'] = 'dataset'
+                    case['dataset'] = frame.gen_dataset(rng, stress.pick_size(rng, min(lv, 1), 1027))
+                    case['materialized'] = rng.random() < .4
+                    rows = case['dataset']['n']
+                else:
+                    case['src'] = 'frame'
+                    case['frame'] = frame.gen_frame_scaled(rng, lv, scaled, rowid=True, pool='full')
+                    rows = case['frame']['R']
+            elif i < n_heavy + n_scale + n_ds:
                 case['src'] = 'dataset'
                 case['dataset'] = frame.gen_dataset(rng)
                 case['materialized'] = rng.random() < .4
                 rows = case['dataset']['n']
             else:
                 case['src'] = 'frame'
-                case['frame'] = frame.gen_frame(rng, rowid=True, allow_empty=False)
+                case['frame'] = frame.gen_frame(rng, rowid=True, allow_empty=False, pool='full')
                 rows = case['frame']['R']
             u = rng.random()
+            weights = frame.row_weights(case['frame']) if scaled and case['src'] == 'frame' else None
+            fits = lambda idx: weights is None or sum(weights[i_] for i_ in idx if 0 <= i_ < rows) <= ragged.BUDGET[lv]
             case.update(bs=rng.choice([1, 1, 2, 2, 3, 4, rows, rows + 1, max(rows - 1, 1), rng.randint(1, rows + 1)]),
                         shuffle=False, drop_last=rng.random() < .4, sampler=None, batch_sampler=None,
-                        collate=rng.random() < .3)
+                        collate=rng.random() < .3, epochs=2 if rng.random() < .25 else 1)
+            if scaled:
+                case['scaled'] = scaled
+                # batch sizes from the ladder (and around the row count): few, large batches
+                case['bs'] = rng.choice([rows, rows + 1, max(rows - 1, 1), max(rows // 2, 1), max(rows // 3, 1),
+                                         stress.pick_size(rng, lv, max(rows, 17)), stress.pick_size(rng, lv, max(rows, 17))])
+                if scaled == 'heavy':
+                    case['bs'] = rng.choice([rows, rows + 1, max(rows - 1, 1), max(rows - rows // 8, 1)])
+                u = rng.choice([.1, .1, .4, .4, .4, .8, .8]) if u >= .6 else u   # shuffle / sampler / sequential only
             if u < .33:
                 case['shuffle'] = True
             elif u < .5:
@@ -77,10 +123,27 @@ class C10(frame.Findings, core.Check):
                     else:
                         hi = max(rows - 1 + (2 if bad else 0), 0)
                         case['sampler'] = [rng.randint(0, hi) for _ in range(k)]
+                        for _ in range(12):
+                            if fits(case['sampler']):
+                                break
+                            case['sampler'] = [rng.randint(0, hi) for _ in range(k)]
+                        else:
+                            case['sampler'] = list(range(rows))
             elif u < .6:
                 bs = []
                 for _ in range(rng.randint(0, 4)):
                     bs.append([rng.randrange(rows) for _ in range(rng.randint(0, 3))] if rows else [])
+                if scaled and rows:
+                    # explicit batches with long structured index lists (runs, reversed, sorted with duplicates, ...)
+                    bs = []
+                    for _ in range(rng.randint(1, 3)):
+                        for attempt in range(200):
+                            ix = ragged.gen_big_index(rng, rows, lv, allow_bad=False, max_len=rows + 2)
+                            if ix['t'] == 'list' and fits([i_ % rows for i_ in ix['is']]):
+                                break
+                        else:
+                            ix = {'is': list(range(rows - 1, -1, -1))}
+                        bs.append([i_ % rows for i_ in ix['is']])
                 case['batch_sampler'] = bs
             elif u < .68:
                 case['bs'] = None
@@ -150,41 +213,52 @@ class C10(frame.Findings, core.Check):
         if loader.batch_sampler is not None and case['batch_sampler'] is None:
             rec = Recorder(loader.batch_sampler.sampler)
             loader.batch_sampler.sampler = rec
-        try:
-            batches = list(loader)
-        except Exception as e:
-            if rec is not None and case['shuffle']:
-                if not hasattr(self, '_orders'):
-                    self._orders = {}
-                self._orders[core.stable_hash(case)] = list(rec.seen)
-            if case['collate'] and 'user collate_fn' in str(e):
-                F.append(('loader/collate', 'the user-supplied collate_fn replaced the row-selection collation', None, None))
-            return 'collate-raises'
-        if case['batch_sampler'] is not None:
-            order = [i for b in case['batch_sampler'] for i in b]
-        elif rec is not None:
-            order = rec.seen
-        else:
-            order = list(case['sampler']) if case['sampler'] is not None else list(range(n))
-        # the draw of a shuffling sampler is an input of the model: remember it for the model request of this case
         if not hasattr(self, '_orders'):
             self._orders = {}
-        self._orders[core.stable_hash(case)] = list(order)
-        ids = [self.row_ids(b) for b in batches]
-        out = {'ok': {'batches': ids, 'frames': [frame.frame_repr(b) for b in batches]}}
-        # ---- direct oracle on the property text
+        orders = self._orders[core.stable_hash(case)] = []
+        out = {}
+        # history on one object: a second epoch of the SAME loader is judged like the first one
+        for ep in range(case.get('epochs', 1)):
+            if rec is not None:
+                rec.seen = []
+            try:
+                batches = list(loader)
+            except Exception as e:
+                if rec is not None and case['shuffle']:
+                    orders.append(list(rec.seen))
+                if case['collate'] and 'user collate_fn' in str(e):
+                    F.append(('loader/collate', 'the user-supplied collate_fn replaced the row-selection collation', None, None))
+                return 'collate-raises'
+            if case['batch_sampler'] is not None:
+                order = [i for b in case['batch_sampler'] for i in b]
+            elif rec is not None:
+                order = list(rec.seen)
+            else:
+                order = list(case['sampler']) if case['sampler'] is not None else list(range(n))
+            # the draw of a shuffling sampler is an input of the model: remember it for the model request of this case
+            orders.append(list(order))
+            ids = [self.row_ids(b) for b in batches]
+            out['ok' if ep == 0 else 'ok2'] = {'batches': ids, 'frames': [frame.frame_repr(b) for b in batches]}
+            self.judge_epoch(case, loader, mat, ref, n, order, batches, ids)
+        if frame.frame_repr(mat) != before:
+            F.append(('loader/mutates', 'iterating the loader modified the source frame', None, None))
+        return out
+
+    def judge_epoch(self, case, loader, mat, ref, n, order, batches, ids):
+        """direct oracle on the property text for one epoch"""
+        F = self._findings
         bs, dl = case['bs'], case['drop_last']
         flat = [i for b in ids for i in b]
         if case['batch_sampler'] is not None:
             if ids != [list(b) for b in case['batch_sampler']]:
-                F.append(('loader/batch-sampler', 'batches differ from the explicit batch sampler', case['batch_sampler'], ids))
+                F.append(('loader/batch-sampler', 'batches differ from the explicit batch sampler', None, None))
         else:
             if case['sampler'] is None:
                 if case['shuffle']:
                     if sorted(order) != list(range(n)):
-                        F.append(('loader/perm', 'the shuffled order is not a permutation of the rows', None, order))
+                        F.append(('loader/perm', 'the shuffled order is not a permutation of the rows', None, order[:50]))
                 elif order != list(range(n)):
-                    F.append(('loader/order', 'without shuffling the rows are not served in order', None, order))
+                    F.append(('loader/order', 'without shuffling the rows are not served in order', None, order[:50]))
             if bs is None:
                 keep = len(order)
                 sizes_ok = all(len(b) == 1 for b in ids)
@@ -196,10 +270,10 @@ class C10(frame.Findings, core.Check):
                     sizes_ok = False
             if flat != order[:keep]:
                 F.append(('loader/coverage', 'the batches do not contain exactly the rows of the epoch, once each, in '
-                          'sampler order', order[:keep], flat))
+                          'sampler order', order[:keep][:50], flat[:50]))
             elif not sizes_ok:
                 F.append(('loader/sizes', 'batch sizes are not batch_size with a smaller / dropped last batch', bs,
-                          [len(b) for b in ids]))
+                          [len(b) for b in ids][:50]))
             try:
                 if len(loader) != len(ids):
                     F.append(('loader/len', 'len(loader) differs from the number of batches', len(loader), len(ids)))
@@ -208,16 +282,13 @@ class C10(frame.Findings, core.Check):
         for b, bid in zip(batches, ids):
             sel = mat[list(bid)] if bid else mat[[]]
             if not (b == sel) and not self._nan_y(b):
-                F.append(('loader/batch', 'a batch is not equal to selecting its rows from the source frame', None, bid))
+                F.append(('loader/batch', 'a batch is not equal to selecting its rows from the source frame', None, bid[:50]))
                 break
             if ref is not None:
                 bad = frame.compare_to_ref(b, frame.ref_select(ref, {'t': 'list', 'is': list(bid)}))
                 if bad is not None:
-                    F.append(('loader/batch', f'a batch differs from the nested-list rows: {bad}', None, bid))
+                    F.append(('loader/batch', f'a batch differs from the nested-list rows: {bad}', None, bid[:50]))
                     break
-        if frame.frame_repr(mat) != before:
-            F.append(('loader/mutates', 'iterating the loader modified the source frame', None, None))
-        return out
 
     @staticmethod
     def _nan_y(tf):
@@ -225,21 +296,35 @@ class C10(frame.Findings, core.Check):
 
     # -- model side ----------------------------------------------------------------------------------
     def model_requests(self, case):
+        if case.get('oracle_only'):
+            return []
         if case['src'] == 'frame':
             fr = frame.model_frame(case['frame'])
             n = case['frame']['R']
         else:
             fr = frame.frame_repr(frame.build_dataset(case['dataset']).materialize().tensor_frame)
             n = case['dataset']['n']
-        order = getattr(self, '_orders', {}).get(core.stable_hash(case))
-        if order is None:
-            order = list(case['sampler']) if case['sampler'] is not None else list(range(n))
-        return [{'cmd': 'epoch', 'frame': fr, 'order': order, 'bs': case['bs'], 'drop_last': case['drop_last'],
-                 'batches': case['batch_sampler'],
-                 'shuffle': bool(case['shuffle'] and case['sampler'] is None and case['batch_sampler'] is None)}]
+        orders = getattr(self, '_orders', {}).get(core.stable_hash(case)) or []
+        dflt = list(case['sampler']) if case['sampler'] is not None else list(range(n))
+        reqs = []
+        for ep in range(max(len(orders), 1)):
+            rq = {'cmd': 'epoch', 'order': orders[ep] if ep < len(orders) else dflt, 'bs': case['bs'],
+                  'drop_last': case['drop_last'], 'batches': case['batch_sampler'],
+                  'shuffle': bool(case['shuffle'] and case['sampler'] is None and case['batch_sampler'] is None)}
+            rq['frame'] = fr
+            reqs.append(rq)
+        return reqs
 
     def model_outcome(self, case, replies):
-        return replies[0]
+        if case.get('oracle_only'):
+            return core.SKIP_MODEL
+        if len(replies) == 1 or not isinstance(replies[0], dict):
+            return replies[0]
+        out = {'ok': replies[0]['ok']}
+        if not isinstance(replies[1], dict):
+            return replies[1]
+        out['ok2'] = replies[1]['ok']
+        return out
 
     def oracle(self, case, real_outcome):
         findings = self.recall(case)
@@ -255,21 +340,41 @@ class C10(frame.Findings, core.Check):
 
     def classify(self, case, out):
         n = case['frame']['R'] if case['src'] == 'frame' else case['dataset']['n']
+        bk = lambda x: str(x) if x <= 7 else '8..16' if x <= 16 else '17..256' if x <= 256 else '257..1024' if x <= 1024 else '1025+'
+        bs = case['bs']
         labs = [f"src:{case['src']}" + (f":materialized={case['materialized']}" if case['src'] == 'dataset' else ''),
-                f'rows:{n}', f"batch_size:{'none' if case['bs'] is None else 'n+1' if case['bs'] == n + 1 else 'n' if case['bs'] == n else case['bs'] if case['bs'] <= 4 else '5..'}",
+                f'rows:{bk(n)}', f"batch_size:{'none' if bs is None else 'n+1' if bs == n + 1 else 'n' if bs == n else bs if bs <= 4 else '5..16' if bs <= 16 else bk(bs)}",
                 f"drop_last:{case['drop_last']}", f"collate_override:{case['collate']}"]
         mode = 'batch_sampler' if case['batch_sampler'] is not None else 'sampler' if case['sampler'] is not None \
             else 'shuffle' if case['shuffle'] else 'sequential'
         labs.append(f"mode:{mode}:{out if isinstance(out, str) else 'ok'}")
+        if case.get('scaled'):
+            labs.append(f"scale:{case['scaled']}:{mode}")
+        if n >= 257:
+            labs.append('scale:rows>=257' if n < 1025 else 'scale:rows>=1025' if n < 16385 else 'scale:rows>=16385(oracle-only)')
         if isinstance(out, dict):
             ids = out['ok']['batches']
             labs.append(f'batches:{min(len(ids), 6)}')
-            if ids and case['bs'] and len(ids[-1]) < case['bs'] and case['batch_sampler'] is None:
+            if 'ok2' in out:
+                labs.append('history:second-epoch-on-the-same-loader')
+            mx = max([len(b) for b in ids] or [0])
+            if mx >= 65:
+                labs.append('scale:batch>=1025' if mx >= 1025 else 'scale:batch>=257' if mx >= 257 else 'scale:batch>=65')
+            if mx >= 65 and mode in ('shuffle', 'sampler', 'batch_sampler'):
+                labs.append('scale:large-batch-in-non-sequential-order')
+            if ids and bs and len(ids[-1]) < bs and case['batch_sampler'] is None:
                 labs.append('short-last-batch')
-            if case['drop_last'] and case['bs'] and case['batch_sampler'] is None and n % case['bs']:
+            if case['drop_last'] and bs and case['batch_sampler'] is None and n % bs:
                 labs.append('dropped-last-batch')
+            nv = max([len(m['values']) for fr in out['ok']['frames'] for _, f in fr.get('feats', []) for m in
+                      ([f] if f['k'] == 'mnt' else [mm for _, mm in f['d']] if f['k'] == 'dict' else [])
+                      if m['values'] != 'bad-ndim'] or [0])
+            if nv >= 16385:
+                labs.append('scale:batch-gathers-values>=32769' if nv >= 32769 else 'scale:batch-gathers-values>=16385')
         if case['src'] == 'frame':
             labs += [f"kind:{ft['kind']}" for ft in case['frame']['feats']]
+            if any(ft['payload'] == 'float64' for ft in case['frame']['feats']):
+                labs.append('dtype:float64-feature')
         return labs
 
     def extra_checks(self, rng, tier, report):
